@@ -151,7 +151,7 @@ theorem own_of_callId {c : Cfg} {t0 : Nat} {hole : Option Nat} {s : St} {i : Nat
     (h : (getTrk s i).callId = s.callId) : t0 ≤ i ∧ i < s.trk.length := by
   constructor
   · rcases Nat.lt_or_ge i t0 with hlt | hge
-    · exact absurd h (hT.stale i hlt)
+    · exact absurd h (Nat.ne_of_lt (hT.stale i hlt))
     · exact hge
   · rcases Nat.lt_or_ge i s.trk.length with hlt | hge
     · exact hlt
